@@ -1,10 +1,137 @@
 import Driver.Common
+import RxModel.StructFluent
+import RxModel.StructCaptures
+import RxModel.StructOps
+import RxGen.Fluent
+import RxGen.Captures
 open Lean Drv
 
 namespace DrvStruct
+open Struct.Fluent
 
-def handle (op : String) (_j : Json) : Except String Json := do
+def appToJson : Option (App String) → Json
+  | none => .null
+  | some a => Json.mkObj [("op", .str a.op),
+      ("args", Json.arr (a.args.map fun (k, v) => Json.arr #[.str k, .str v]).toArray)]
+
+/-- `fluent_call`: the operator application the model says a fluent call builds (values are opaque
+tokens; the default expression `None` is the token "None"), and the application obtained by
+calling the operator directly with the same arguments. -/
+def fluentCall (j : Json) : Except String Json := do
+  let mname ← getStr j "method"
+  let envL ← (← getArr j "env").mapM fun p =>
+    match p with
+    | .arr #[.str k, .str v] => pure (k, v)
+    | _ => throw "bad env entry"
+  let env : String → Option String := fun n => envL.lookup n
+  let t := RxGen.Fluent.table
+  match t.methods.find? (fun m => m.name == mname) with
+  | none => pure (Json.mkObj [("error", .str "no such method in the table")])
+  | some m =>
+    let fl := fluentApp (V := String) id t m env
+    let pi := match t.ops.find? (fun s => s.name == aliasOf mname) with
+      | some sig => pipedApp (V := String) id sig m.params env
+      | none => none
+    pure (Json.mkObj [("fluent", appToJson fl), ("piped", appToJson pi), ("ok", .bool (ok t m))])
+
+/-! ### frame model runs (C04 / C44) -/
+open Struct.Frame Struct.Ops
+
+def notifOfJson (j : Json) : Except String (Notif Val) := do
+  match j with
+  | .arr #[.str "N", v] => pure (.next (← valOfJson v))
+  | .arr #[.str "E", .str e] => pure (.error e)
+  | .arr #[.str "C"] => pure .completed
+  | _ => throw s!"bad notification {j.compress}"
+
+def notifToJson : Notif Val → Json
+  | .next v => Json.arr #[.str "N", valToJson v]
+  | .error e => Json.arr #[.str "E", .str e]
+  | .completed => Json.arr #[.str "C"]
+
+def actsOfJson {A} (f : Json → Except String A) (js : List Json) : Except String (List (Act A)) :=
+  js.mapM fun j =>
+    match j with
+    | .arr #[.str "c", i] => do pure (.create (← i.getNat?))
+    | .arr #[.str "a", i, a] => do pure (.act (← i.getNat?) (← f a))
+    | _ => throw s!"bad act {j.compress}"
+
+def outsToJson {O} (f : O → Json) (r : List (Nat × O)) : Json :=
+  Json.arr (r.map fun (i, o) => Json.arr #[.num (JsonNumber.fromNat i), f o]).toArray
+
+def pairN : Notif (Val × Val) → Notif Val := Notif.map (fun p => Val.tup [p.1, p.2])
+
+def natOf (v : Val) : Nat := match v with | .int i => i.toNat | _ => 0
+
+def frameRun (j : Json) : Except String Json := do
+  let sys ← getStr j "sys"
+  let actsJ ← getArr j "acts"
+  match sys with
+  | "ref_count" =>
+    let acts ← actsOfJson (fun a => match a with
+      | .arr #[.str "sub", k] => do pure (RcAct.sub (← k.getNat?))
+      | .arr #[.str "unsub", k] => do pure (RcAct.unsub (← k.getNat?))
+      | _ => throw "bad ref_count act") actsJ
+    pure (outsToJson (fun o => match o with
+      | RcOut.srcSubscribe k => Json.arr #[.str "srcSubscribe", .num (JsonNumber.fromNat k)]
+      | .connect => Json.arr #[.str "connect"]
+      | .srcUnsubscribe k => Json.arr #[.str "srcUnsubscribe", .num (JsonNumber.fromNat k)]
+      | .disconnect => Json.arr #[.str "disconnect"]) (runG refCount () [] acts))
+  | _ =>
+    let acts ← actsOfJson notifOfJson actsJ
+    match sys with
+    | "take" =>
+      let n ← getNat j "count"
+      pure (outsToJson notifToJson (runG (take (α := Val)).sys n [] acts))
+    | "skip" =>
+      let n ← getNat j "count"
+      pure (outsToJson notifToJson (runG (skip (α := Val)).sys n [] acts))
+    | "scan" =>
+      let f ← getFn j "accumulator"
+      let seed := (getVal j "seed").toOption
+      let p : (Val → Val → Except Err Val) × Option Val × (Val → Val) := (fun a x => f.call (.tup [a, x]), seed, id)
+      pure (outsToJson notifToJson (runG (scan (α := Val) (β := Val)).sys p [] acts))
+    | "map_indexed" =>
+      let f ← getFn j "mapper"
+      let p : Val → Nat → Except Err Val := fun x i => f.call (.tup [x, .int i])
+      pure (outsToJson notifToJson (runG (mapIndexed (α := Val) (β := Val)).sys p [] acts))
+    | "zip_with_iterable" =>
+      let seq ← getVals j "seq"
+      pure (outsToJson (fun n => notifToJson (pairN n)) (runG (zipIter (α := Val) (γ := Val)).sys seq [] acts))
+    | "distinct_until_changed" =>
+      let f ← getFn j "key_mapper"
+      let p : (Val → Except Err Val) × (Val → Val → Except Err Bool) := (f.call, fun a b => .ok (Val.pyEq a b))
+      pure (outsToJson notifToJson (runG (distinctUntilChanged (α := Val) (κ := Val)).sys p [] acts))
+    | "take_while" =>
+      let f ← getFn j "predicate"
+      let incl ← getBool j "inclusive"
+      let p : (Val → Except Err Bool) × Bool := (fun v => (f.call v).map Val.truthy, incl)
+      pure (outsToJson notifToJson (runG (takeWhile (α := Val)).sys p [] acts))
+    | "pairwise" =>
+      pure (outsToJson (fun n => notifToJson (pairN n)) (runG (pairwise (α := Val)).sys () [] acts))
+    | _ => throw s!"unknown sys {sys}"
+
+open Struct.Captures in
+def capturesReport : Json :=
+  let t := RxGen.Captures.table
+  let show_ (e : Entry) : Json := .str s!"{e.file}:{e.path}.{e.name} created@L{e.created} used@{match e.used with | some u => s!"L{u}" | none => "-"} escapes={e.escapes}"
+  let showA (a : String × String × String) : Json := .str s!"{a.1}:{a.2.1}.{a.2.2}"
+  Json.mkObj [
+    ("entries", .num (JsonNumber.fromNat t.length)),
+    ("created_above_subscription", .num (JsonNumber.fromNat (t.filter fun e => e.created < 2).length)),
+    ("cold_violations", Json.arr ((coldViolations t).map show_).toArray),
+    ("factory_violations", Json.arr ((factoryViolations t).map show_).toArray),
+    ("cold_allowed", Json.arr ((t.filter fun e => coldBad e && coldOk e).map show_).toArray),
+    ("factory_allowed", Json.arr ((t.filter fun e => factoryBad e && factoryOk e).map show_).toArray),
+    ("cold_stale_allow", Json.arr ((staleAllow t coldAllow coldBad).map showA).toArray),
+    ("factory_stale_allow", Json.arr ((staleAllow t factoryAllow factoryBad).map showA).toArray)]
+
+def handle (op : String) (j : Json) : Except String Json := do
   match op with
+  | "fluent_call" => fluentCall j
+  | "fluent_table_ok" => pure (.bool (tableOk RxGen.Fluent.table))
+  | "frame_run" => frameRun j
+  | "captures_report" => pure capturesReport
   | _ => throw s!"unknown op {op}"
 
 end DrvStruct
